@@ -283,13 +283,60 @@ Section Sem.
   (* ConcStatement.Evaluate: every child runs (each has its own recover); the block fails,
      after all of them, iff some child failed.  The children are run here in listed order;
      Conc/ (C18) treats the interleavings. *)
-  Fixpoint conc_run (cs : list cchild) (failed : bool) : S :=
+  Fixpoint conc_run (cs : list cchild) (failed : bool) (acc : list pos) : S :=
     match cs with
-    | [] => fun e => (if failed then Failed [] else Normal, e)
+    | [] => fun e => (if failed then Failed acc else Normal, e)
     | c :: rest => fun e => match conc_child c e with
-                            | (Ok _, e') => conc_run rest failed e'
-                            | (_, e') => conc_run rest true e'
+                            | (Ok _, e') => conc_run rest failed acc e'
+                            | (Err cs', e') => conc_run rest true (acc ++ cs') e'   (* the block's message joins the children's *)
+                            | (Panic, e') => conc_run rest true acc e'
                             end
+    end.
+
+  (* ForStmt.Evaluate's loop, given the already-initialised environment: [fuel] conditions may
+     still be evaluated (maxExecuteNum); the step runs after a normal iteration AND after continue *)
+  Fixpoint for_loop (c : expr) (step : assignment) (body : S) (fuel : nat) (e : env) {struct fuel} : flow * env :=
+    match fuel with
+    | O => (Failed [], e)                      (* execute for bigger than maxExecuteNum *)
+    | Datatypes.S fuel' =>
+      on_cond c (fun b =>
+        if b then
+          fun e => match body e with
+                   | (Normal, e') | (Cont, e') =>
+                     (match exec_assign step e' with
+                      | (Ok _, e'') => for_loop c step body fuel' e''
+                      | (Err cs, e'') => (Failed cs, e'')
+                      | (Panic, e'') => (Panicked, e'')
+                      end)
+                   | (Brk, e') => (Normal, e')
+                   | other => other
+                   end
+        else fun e => (Normal, e)) e
+    end.
+
+  (* ForRangeStmt.Evaluate's loop over the keys taken when the loop started *)
+  Fixpoint range_loop (key : string) (body : S) (ks : list value) (e : env) {struct ks} : flow * env :=
+    match ks with
+    | [] => (Normal, e)
+    | k :: ks' =>
+      match set_value fo e key k with
+      | Err cs => (Failed cs, e)
+      | Panic => (Panicked, e)
+      | Ok e1 =>
+        match body e1 with
+        | (Normal, e2) | (Cont, e2) => range_loop key body ks' e2
+        | (Brk, e2) => (Normal, e2)
+        | other => other
+        end
+      end
+    end.
+
+  (* the keys a forRange visits: indexes 0..len-1 of a slice/array, the keys of a map *)
+  Definition range_keys (r : resolved fo) : option (list value) :=
+    match r with
+    | RObj (HSeq false _ _ elems) => Some (map (fun i => VInt KI (Z.of_nat i)) (seq 0 (length elems)))
+    | RObj (HMap false _ _ entries) => Some (map fst entries)
+    | _ => None
     end.
 
   Fixpoint exec_stmt (s : stmt) : S :=
@@ -305,25 +352,7 @@ Section Sem.
         match exec_assign init e with
         | (Err cs, e1) => (Failed cs, e1)
         | (Panic, e1) => (Panicked, e1)
-        | (Ok _, e1) =>
-          (fix loop (fuel : nat) (e : env) {struct fuel} : flow * env :=
-             match fuel with
-             | O => (Failed [], e)                      (* execute for bigger than maxExecuteNum *)
-             | Datatypes.S fuel' =>
-               on_cond c (fun b =>
-                 if b then
-                   fun e => match exec_block body e with
-                            | (Normal, e') | (Cont, e') =>
-                              (match exec_assign step e' with
-                               | (Ok _, e'') => loop fuel' e''
-                               | (Err cs, e'') => (Failed cs, e'')
-                               | (Panic, e'') => (Panicked, e'')
-                               end)
-                            | (Brk, e') => (Normal, e')
-                            | other => other
-                            end
-                 else fun e => (Normal, e)) e
-             end) max_execute_num e1
+        | (Ok _, e1) => for_loop c step (exec_block body) max_execute_num e1
         end
     | SForRange p key coll body =>
       fun e =>
@@ -331,35 +360,14 @@ Section Sem.
         | Err cs => (Failed cs, e)
         | Panic => (Panicked, e)
         | Ok r =>
-          let keys : option (list value) :=
-            match r with
-            | RObj (HSeq false _ _ elems) => Some (map (fun i => VInt KI (Z.of_nat i)) (seq 0 (length elems)))
-            | RObj (HMap false _ _ entries) => Some (map fst entries)
-            | _ => None
-            end in
-          match keys with
+          match range_keys r with
           | None => (Failed [p], e)                     (* not iterable *)
-          | Some ks =>
-            (fix each (ks : list value) (e : env) {struct ks} : flow * env :=
-               match ks with
-               | [] => (Normal, e)
-               | k :: ks' =>
-                 match set_value fo e key k with
-                 | Err cs => (Failed cs, e)
-                 | Panic => (Panicked, e)
-                 | Ok e1 =>
-                   match exec_block body e1 with
-                   | (Normal, e2) | (Cont, e2) => each ks' e2
-                   | (Brk, e2) => (Normal, e2)
-                   | other => other
-                   end
-                 end
-               end) ks e
+          | Some ks => range_loop key (exec_block body) ks e
           end
         end
     | SBreak => fun e => (Brk, e)
     | SContinue => fun e => (Cont, e)
-    | SConc cs => conc_run cs false
+    | SConc cs => conc_run cs false []
     end
   with exec_block (b : block) : S :=
     match b with
